@@ -463,66 +463,110 @@ theorem ansiEscape_idem (t : Text) : ansiEscape (ansiEscape t) = ansiEscape t :=
   · decide
   · rename_i h; simp only [not_or] at h; exact h.2.2.2.2
 
-/-- what an XML parser does to character data made of plain characters and the four predefined
-    entities `&amp; &lt; &gt; &quot;` (specification of the decoding, not code of the library) -/
+/-- what an XML parser does to character data made of plain characters, the predefined entities
+    `&amp; &lt; &gt; &quot;` and the two character references `html_escape` emits
+    (specification of the decoding, not code of the library) -/
 def htmlUnescape : Text → Text
   | '&' :: 'a' :: 'm' :: 'p' :: ';' :: r => '&' :: htmlUnescape r
   | '&' :: 'l' :: 't' :: ';' :: r => '<' :: htmlUnescape r
   | '&' :: 'g' :: 't' :: ';' :: r => '>' :: htmlUnescape r
   | '&' :: 'q' :: 'u' :: 'o' :: 't' :: ';' :: r => '"' :: htmlUnescape r
+  | '&' :: '#' :: '3' :: '9' :: ';' :: r => '\'' :: htmlUnescape r
+  | '&' :: '#' :: '1' :: '3' :: ';' :: r => '\r' :: htmlUnescape r
   | c :: r => c :: htmlUnescape r
   | [] => []
-
-/-- **html_escape leaves no markup metacharacter**: no `<`, `>`, `"` at all … -/
-theorem htmlEscape_noMeta (t : Text) : ∀ c ∈ htmlEscape t, c ≠ '<' ∧ c ≠ '>' ∧ c ≠ '"' := by
-  intro c hc
-  simp only [htmlEscape, List.mem_flatMap] at hc
-  obtain ⟨a, _, ha⟩ := hc
-  split at ha
-  · simp at ha; rcases ha with rfl | rfl | rfl | rfl | rfl <;> decide
-  · split at ha
-    · simp at ha; rcases ha with rfl | rfl | rfl | rfl <;> decide
-    · split at ha
-      · simp at ha; rcases ha with rfl | rfl | rfl | rfl <;> decide
-      · split at ha
-        · simp at ha; rcases ha with rfl | rfl | rfl | rfl | rfl | rfl <;> decide
-        · simp at ha; subst ha
-          rename_i h1 h2 h3 h4
-          exact ⟨h2, h3, h4⟩
-
-theorem htmlUnescape_cons_ne (c : Char) (r : Text) (h : c ≠ '&') :
-    htmlUnescape (c :: r) = c :: htmlUnescape r := by
-  rw [htmlUnescape.eq_def]; split <;> simp_all
 
 def escChar (c : Char) : Text :=
   if c = '&' then "&amp;".toList
   else if c = '<' then "&lt;".toList
   else if c = '>' then "&gt;".toList
   else if c = '"' then "&quot;".toList
+  else if c = '\'' then "&#39;".toList
+  else if c = '\r' then "&#13;".toList
+  else if !xmlLegal c then ['?']
   else [c]
 
+theorem htmlEscape_cons (c : Char) (cs : Text) :
+    htmlEscape (c :: cs) = escChar c ++ htmlEscape cs := by simp [htmlEscape, escChar]
+
+/-- **html_escape leaves no markup metacharacter**: no `<`, `>`, `"`, `'`, no carriage return and
+    no character outside XML's `Char` production … -/
+theorem htmlEscape_noMeta (t : Text) :
+    ∀ c ∈ htmlEscape t, c ≠ '<' ∧ c ≠ '>' ∧ c ≠ '"' ∧ c ≠ '\'' ∧ c ≠ '\r' ∧ xmlLegal c = true := by
+  intro c hc
+  induction t with
+  | nil => simp [htmlEscape] at hc
+  | cons a as ih =>
+    rw [htmlEscape_cons, List.mem_append] at hc
+    rcases hc with hc | hc
+    · unfold escChar at hc
+      split at hc
+      · simp at hc; rcases hc with rfl | rfl | rfl | rfl | rfl <;> decide
+      · split at hc
+        · simp at hc; rcases hc with rfl | rfl | rfl | rfl <;> decide
+        · split at hc
+          · simp at hc; rcases hc with rfl | rfl | rfl | rfl <;> decide
+          · split at hc
+            · simp at hc; rcases hc with rfl | rfl | rfl | rfl | rfl | rfl <;> decide
+            · split at hc
+              · simp at hc; rcases hc with rfl | rfl | rfl | rfl | rfl <;> decide
+              · split at hc
+                · simp at hc; rcases hc with rfl | rfl | rfl | rfl | rfl <;> decide
+                · split at hc
+                  · simp at hc; subst hc; decide
+                  · simp at hc; subst hc
+                    rename_i h1 h2 h3 h4 h5 h6 h7
+                    exact ⟨h2, h3, h4, h5, h6, by simpa using h7⟩
+    · exact ih hc
+
+theorem htmlUnescape_cons_ne (c : Char) (r : Text) (h : c ≠ '&') :
+    htmlUnescape (c :: r) = c :: htmlUnescape r := by
+  rw [htmlUnescape.eq_def]; split <;> simp_all
+
+/-- what the value looks like after the round trip: characters XML cannot carry become `?` -/
+def xmlClean (t : Text) : Text := t.map fun c => if xmlLegal c then c else '?'
+
 theorem htmlUnescape_escChar (c : Char) (r : Text) :
-    htmlUnescape (escChar c ++ r) = c :: htmlUnescape r := by
+    htmlUnescape (escChar c ++ r) = (if xmlLegal c then c else '?') :: htmlUnescape r := by
   unfold escChar
   split
-  · rename_i hc; subst hc; simp [htmlUnescape]
+  · rename_i hc; subst hc; simp [htmlUnescape]; decide
   · split
-    · rename_i hc; subst hc; simp [htmlUnescape]
+    · rename_i hc; subst hc; simp [htmlUnescape]; decide
     · split
-      · rename_i hc; subst hc; simp [htmlUnescape]
+      · rename_i hc; subst hc; simp [htmlUnescape]; decide
       · split
-        · rename_i hc; subst hc; simp [htmlUnescape]
-        · rename_i h1 _ _ _
-          simpa using htmlUnescape_cons_ne c r h1
+        · rename_i hc; subst hc; simp [htmlUnescape]; decide
+        · split
+          · rename_i hc; subst hc; simp [htmlUnescape]; decide
+          · split
+            · rename_i hc; subst hc; simp [htmlUnescape]; decide
+            · rename_i h1 _ _ _ _ _
+              split
+              · rename_i hl
+                have : xmlLegal c = false := by simpa using hl
+                simp [this, htmlUnescape_cons_ne '?' r (by decide)]
+              · rename_i hl
+                have : xmlLegal c = true := by simpa using hl
+                simp [this, htmlUnescape_cons_ne c r h1]
 
-/-- … and decoding the entities gives back the value, character for character -/
-theorem htmlUnescape_escape (t : Text) : htmlUnescape (htmlEscape t) = t := by
+/-- … and decoding the entities gives back the value, character for character (characters that
+    XML cannot carry at all are replaced by `?`; every other character, including CR and the
+    apostrophe, arrives verbatim) -/
+theorem htmlUnescape_escape (t : Text) : htmlUnescape (htmlEscape t) = xmlClean t := by
   induction t with
   | nil => rfl
   | cons c cs ih =>
-    have h : htmlEscape (c :: cs) = escChar c ++ htmlEscape cs := by simp [htmlEscape, escChar]
-    rw [h, htmlUnescape_escChar, ih]
+    rw [htmlEscape_cons, htmlUnescape_escChar, ih]; simp [xmlClean]
 
+theorem xmlClean_id (t : Text) (h : ∀ c ∈ t, xmlLegal c = true) : xmlClean t = t := by
+  induction t with
+  | nil => rfl
+  | cons c cs ih =>
+    have hc := h c (by simp)
+    have := ih (fun a ha => h a (by simp [ha]))
+    simp only [xmlClean, List.map_cons] at this ⊢
+    rw [this]; simp [hc]
 
 /-! ### non-vacuity of the template theorems -/
 
@@ -563,7 +607,8 @@ example : ∃ items segs, scanPercent exPTmpl = some (.ok items) ∧
   ⟨[.lit [ESC, '[', '3', '1', 'm', 'a'], .hole { leftAdj := true, width := 3 }, .lit ['b']], _,
    rfl, rfl, by decide, rfl⟩
 
-example : htmlEscape "a<b & \"c\">".toList = "a&lt;b &amp; &quot;c&quot;&gt;".toList := by decide
+example : htmlEscape ("a<b & \"c\">'\r".toList ++ [ESC]) =
+    "a&lt;b &amp; &quot;c&quot;&gt;&#39;&#13;?".toList := by decide
 
 example : StOK (run exTb {} [ESC, '[', '3', '1']).1 ∧
     (run exTb {} [ESC, '[', '3', '1']).1.mode = .csi ['3', '1'] [] := by
